@@ -27,9 +27,9 @@ def subprocess_bytes(cmd):
     return subprocess.run(cmd, capture_output=True).stdout
 
 
-def run_ac(ctx, child, root, n, tag, inject=None):
+def run_ac(ctx, child, root, n, tag, inject=None, fsize=None):
     log = os.path.join(ctx.scratch, "ac.log")
-    cmd = ["strace", "-f", "-o", log, "-e", TRACE]
+    cmd = (["env", "AC_FSIZE=%d" % fsize] if fsize is not None else []) + ["strace", "-f", "-o", log, "-e", TRACE]
     if inject:
         cmd += ["-e", "inject=%s" % inject]
     cmd += [child, "ac", root, "d", "f", str(n), tag]
@@ -113,6 +113,21 @@ def enumerate_faults(ctx, child, sizes, leftovers):
                 shapes.append(shape_ok)
                 if not shape_ok:
                     bad.append({"what": "observed system-call sequence does not have the proved shape (validates srcextract)", "syscalls": [c[2] for c in calls]})
+                # a short write: a file-size limit below the data length (the kernel takes the bytes up to
+                # the limit without an error, then fails with EFBIG)
+                for lim in ([] if n < 2 else sorted({n // 2, n - 1, 1})):
+                    root, old = setup_root(ctx, pre, leftover)
+                    rc, oc, tr2, cmd2 = run_ac(ctx, child, root, n, "A", fsize=lim)
+                    dst = read_dst(root)
+                    short = bool(re.search(r"write\(\d+, .*, (\d+)\)\s+= (\d+)", tr2)) and any(
+                        int(m2.group(2)) < int(m2.group(1)) for m2 in re.finditer(r"write\(\d+, .*?, (\d+)\)\s+= (\d+)", tr2))
+                    ok = (oc.startswith("OUTCOME panic") and dst == old) or (oc == "OUTCOME returned" and dst == want)
+                    results.append({"pre_existing": pre, "leftover": leftover, "size": n, "inject": "RLIMIT_FSIZE=%d" % lim, "fired": short,
+                                    "outcome": oc, "dst_is": "old" if dst == old else ("data" if dst == want else "OTHER")})
+                    if not ok:
+                        bad.append({"what": "short write (file-size limit %d < %d bytes of data)" % (lim, n), "pre_existing": pre, "leftover": leftover,
+                                    "size": n, "outcome": oc, "dst_is_old": dst == old, "dst_is_data": dst == want,
+                                    "dst_len": None if dst is None else len(dst), "cmd": cmd2, "trace_tail": tr2.splitlines()[-8:]})
                 for (name, ordinal, text) in calls:
                     for mode in ("kill", "error"):
                         if mode == "error" and name not in ("openat", "write", "fsync", "renameat"):
@@ -159,7 +174,7 @@ def run(ctx):
         "evaluations": len(results) + (240 if quick else 3600),
         "distinct_nontrivial": fired,
         "rule": "fault cases: (destination absent|present) x leftover {none, <name>.tmp in the root, <name>.tmp in the directory (a user file), several old temp files} x data size x "
-                "each system call of the call (ordinals from a baseline strace) x {kill at its entry, EIO}; after each, the destination must be old-or-data, a failed call must panic, "
+                "each system call of the call (ordinals from a baseline strace) x {kill at its entry, EIO}, plus short writes produced by a file-size limit below the data length; after each, the destination must be old-or-data, a failed call must panic, "
                 "and a subsequent plain call must install exactly its data; non-trivial = the injection fired. concurrency cases: two concurrent calls (different directories / "
                 "different names / same name) with a polling reader, on DirFs and MemFs.",
         "samples": results[:3] + [r for r in results if r.get("fired")][:3],
